@@ -26,7 +26,7 @@ var (
 
 func partTag(name string) string { return strategy.PartitionTagName + ":" + name }
 
-func dlCheckAcquireMetrics(c dlCase, b *dlBuilt, i int, e dlEv, ok bool, busyBefore int, perKey map[string]int, smp []recSample) *kit.Outcome {
+func dlCheckAcquireMetrics(c dlCase, b *dlBuilt, i int, e dlEv, ok bool, busyBefore int, binName string, binBefore int, smp []recSample) *kit.Outcome {
 	var total, bins []recSample
 	for _, s := range smp {
 		if s.ID != core.MetricInFlight {
@@ -50,15 +50,10 @@ func dlCheckAcquireMetrics(c dlCase, b *dlBuilt, i int, e dlEv, ok bool, busyBef
 		}
 	default:
 		if ok {
-			bin := e.Key
-			if bin != "a" && bin != "b" && bin != "c" {
-				bin = "<unknown>"
-			}
-			want := float64(perKey[e.Key] + 1)
-			_ = c
-			if bin == "<unknown>" {
-				want = float64(perKey["zz"] + 1)
-			}
+			// the bin charged is the partition object registered under the key at this moment (else the unknown bin);
+			// its sample is that object's count after this grant
+			bin := binName
+			want := float64(binBefore + 1)
 			if len(bins) != 1 || bins[0].Tags != partTag(bin) || bins[0].Value != want {
 				o := kit.Viol(c.Strategy+":bin-inflight-metric", "event %d: granted request of %q emitted partition in-flight samples %v, expected one for partition %q with value %v", i, e.Key, fmtSamples(bins), bin, want)
 				return &o
@@ -95,6 +90,9 @@ func dlCheckSampleMetrics(c dlCase, b *dlBuilt, i int, smp []recSample, before i
 	}
 	if b.lookup != nil || b.pred != nil {
 		for k, n := range dlBins {
+			if b.idxOf(n) < 0 {
+				continue // not registered at the moment: nothing is enforced for it
+			}
 			if v, ok := b.reg.gauge(core.MetricPartitionLimit, partTag(n)); !ok || int(v) != b.binLimit(k) {
 				o := kit.Viol(c.Strategy+":share-gauge", "after event %d: limit.partition gauge of %q reports %v, the partition enforces %d", i, n, v, b.binLimit(k))
 				return &o
